@@ -169,6 +169,7 @@ type World struct {
 	VW      *vnet.World
 	Target  *world.Target
 	UDPTgt  *vnet.UDPConn
+	SplitAt int // TCP probes send their first SplitAt bytes, wait, then the rest (0: one write)
 	udpInbox []vnet.Datagram // everything the UDP target has received (probes may run concurrently: none may take another's datagram)
 	nclient int
 }
@@ -287,7 +288,15 @@ func (w *World) ProbeTCPFrom(l Listener, k Key, seed uint64, ip string) ProbeRes
 	msg := []byte(fmt.Sprintf("ping-%d", seed))
 	wire := world.EncodeStream(key, seed, world.Addr(TargetTCP), msg)
 	rd := vrt.Spawn("probe-reader", func() { cl.ReadAll() })
-	cl.Send(wire, 0)
+	if w.SplitAt > 0 && w.SplitAt < len(wire) {
+		// the opening bytes arrive in two pieces (the first one shorter than what the server needs
+		// to look for the key)
+		cl.Send(wire[:w.SplitAt], 0)
+		vrt.WaitIdle()
+		cl.Send(wire[w.SplitAt:], 0)
+	} else {
+		cl.Send(wire, 0)
+	}
 	cl.CloseWrite()
 	vrt.Join(rd)
 	cl.Close()
